@@ -10,10 +10,13 @@ package oracle
 //@ func (AppModule).EndBlock
 //@   flag noframe
 //@   flag pure=GetCaches,GetValidatorUpdates,GetAggregatorContext,Logger,FromTmProtoPublicKey,Address,NewInt,Info,BlockHeight,Join,GetUpdatedFeederIDs
-//@   flag havoc=GetValidators,GrowRoundID,RemoveNonceWithFeederIDForValidators,AddZeroNonceItemWithFeederIDForValidators,PrepareRoundEndBlock,SetParams,EmitEvent,ResetAggregatorContextCheckTx,ResetUpdatedFeederIDs
+//@   flag havoc=GetValidators,RemoveNonceWithFeederIDForAll,GrowRoundID,RemoveNonceWithFeederIDForValidators,AddZeroNonceItemWithFeederIDForValidators,PrepareRoundEndBlock,SetParams,EmitEvent,ResetAggregatorContextCheckTx,ResetUpdatedFeederIDs
 // C13 (only current validators get nonces for a round): the validator list that nonces are removed and created for is
 // read from the aggregator context after this block's validator updates were applied to it.
 //@   before[C13.eb.current] GetValidators requires len(res_GetValidatorUpdates_0) > 0 ==> defined(res_SetValidatorPowers_0)
+// ... and when the set changed, the nonces of the sealed rounds are removed from everyone who holds one (a validator
+// that left must not keep nonces it could still spend on fee-less transactions), not only from the new set.
+//@   before[C13.eb.leavers] RemoveNonceWithFeederIDForValidators requires len(res_GetValidatorUpdates_0) == 0
 //@   before[C13.eb.remove]  RemoveNonceWithFeederIDForValidators requires defined(res_GetValidators_0) && arg_validators == res_GetValidators_0
 //@   before[C13.eb.create]  AddZeroNonceItemWithFeederIDForValidators requires defined(res_GetValidators_0) && arg_validators == res_GetValidators_0
 //@   before[C12.eb.fresh] GetCache requires !defined(res_SealRound_0) ==> ghost(cacheAdds) == old(ghost(cacheAdds)) + 1
